@@ -17,10 +17,10 @@ use serde::{Deserialize, Serialize};
 use std::collections::{BTreeMap, BTreeSet};
 
 /// main jar classes (official names) with their super class / interfaces drawn from these lists
-const MAIN: &[&str] = &["p/A", "p/B", "p/C", "p/D", "p/I"];
+const MAIN: &[&str] = &["p/A", "p/B", "p/C", "p/D", "p/I", "p/J"];
 const LIB: &str = "lib/L";
 const EXT: &str = "ext/X";
-const TYPES: &[&str] = &["I", "J", "Ljava/lang/Object;", "Ljava/lang/String;", "Lp/A;", "Lp/B;", "Lp/C;", "Lp/I;", "Lext/X;", "Llib/L;", "[Lp/A;"];
+const TYPES: &[&str] = &["I", "J", "Ljava/lang/Object;", "Ljava/lang/String;", "Lp/A;", "Lp/B;", "Lp/C;", "Lp/I;", "Lext/X;", "Llib/L;", "[Lp/A;", "Lp/J;"];
 
 #[derive(Clone, Debug, Serialize, Deserialize)]
 pub struct Pattern {
@@ -53,25 +53,38 @@ pub struct Case {
 
 fn pattern() -> impl Strategy<Value = Pattern> {
 	(
-		(0usize..MAIN.len() - 1, proptest::collection::vec(0u8..TYPES.len() as u8, 0..3), proptest::option::of(0u8..TYPES.len() as u8), proptest::collection::vec(prop_oneof![3 => Just(0u8), 2 => Just(1u8), 2 => Just(2u8), 1 => Just(3u8), 1 => Just(4u8), 2 => Just(5u8)], 3)),
+		(0usize..4, proptest::collection::vec(0u8..TYPES.len() as u8, 0..3), proptest::option::of(0u8..TYPES.len() as u8), proptest::collection::vec(prop_oneof![3 => Just(0u8), 2 => Just(1u8), 2 => Just(2u8), 1 => Just(3u8), 1 => Just(4u8), 2 => Just(5u8)], 3)),
 		(prop_oneof![3 => Just(0u8), 2 => Just(1u8), 2 => Just(2u8), 1 => Just(3u8), 2 => Just(5u8), 1 => Just(6u8)], prop_oneof![9 => Just(false), 1 => Just(true)], prop_oneof![5 => Just(true), 1 => Just(false)], any::<bool>(), prop_oneof![6 => Just(0u8), 1 => 1u8..4], prop_oneof![5 => Just(0u8), 1 => 1u8..5], any::<bool>()),
 	)
 		.prop_map(|((class, params, ret, widen), (widen_ret, arity_change, synthetic, bridge_flag, blocker, body, same_name))| Pattern { class, params, ret, widen, widen_ret, arity_change, synthetic, bridge_flag, blocker, body, same_name })
 }
 
 fn strategy() -> impl Strategy<Value = Case> {
-	(proptest::collection::vec(0u8..4, MAIN.len()), proptest::collection::vec(pattern(), 1..6), proptest::collection::vec(any::<u8>(), 0..80)).prop_map(|(supers, patterns, map_stream)| Case { supers, patterns, map_stream })
+	(proptest::collection::vec(0u8..16, MAIN.len()), proptest::collection::vec(pattern(), 1..6), proptest::collection::vec(any::<u8>(), 0..80)).prop_map(|(supers, patterns, map_stream)| Case { supers, patterns, map_stream })
 }
 
 fn hierarchy(supers: &[u8]) -> Vec<(String, Option<String>, Vec<String>)> {
-	// p/A: Object | lib/L | ext/X ; p/B extends A ; p/C extends B | A ; p/D extends A | Object ; p/I interface
-	let pick = |i: usize| supers.get(i).copied().unwrap_or(0);
+	// p/A: Object | lib/L | ext/X ; p/B extends A ; p/C extends B | A ; p/D extends A | Object ; p/I, p/J interfaces.
+	// The low two bits of each choice select what they always selected; the high two bits add the second interface p/J
+	// in front of / behind p/I (a class with several parents, some of them reachable twice) and let p/I extend p/J.
+	let pick = |i: usize| supers.get(i).copied().unwrap_or(0) & 3;
+	let hi = |i: usize| supers.get(i).copied().unwrap_or(0) >> 2;
+	let with_j = |mut base: Vec<String>, how: u8| {
+		match how {
+			1 => base.push("p/J".into()),
+			2 => base.insert(0, "p/J".into()),
+			3 => base = vec!["p/J".into()],
+			_ => {}
+		}
+		base
+	};
 	vec![
-		("p/A".into(), Some(["java/lang/Object", LIB, EXT, "java/lang/Object"][pick(0) as usize % 4].to_string()), if pick(0) >= 2 { vec!["p/I".into()] } else { vec![] }),
-		("p/B".into(), Some("p/A".into()), if pick(1) % 2 == 1 { vec!["p/I".into()] } else { vec![] }),
-		("p/C".into(), Some(if pick(2) % 2 == 0 { "p/B" } else { "p/A" }.to_string()), vec![]),
+		("p/A".into(), Some(["java/lang/Object", LIB, EXT, "java/lang/Object"][pick(0) as usize % 4].to_string()), with_j(if pick(0) >= 2 { vec!["p/I".into()] } else { vec![] }, hi(0))),
+		("p/B".into(), Some("p/A".into()), with_j(if pick(1) % 2 == 1 { vec!["p/I".into()] } else { vec![] }, hi(1))),
+		("p/C".into(), Some(if pick(2) % 2 == 0 { "p/B" } else { "p/A" }.to_string()), with_j(vec![], hi(2) % 2)),
 		("p/D".into(), Some(if pick(3) % 2 == 0 { "p/A" } else { "java/lang/Object" }.to_string()), vec![]),
-		("p/I".into(), Some("java/lang/Object".into()), vec![]),
+		("p/I".into(), Some("java/lang/Object".into()), if hi(4) % 2 == 1 { vec!["p/J".into()] } else { vec![] }),
+		("p/J".into(), Some("java/lang/Object".into()), vec![]),
 	]
 }
 
@@ -147,7 +160,7 @@ fn build(case: &Case) -> (Built, Inheritance) {
 	inh.insert(LIB.into(), vec!["java/lang/Object".into()]);
 	let mut models: Vec<CClass> = h
 		.iter()
-		.map(|(c, s, i)| CClass { minor: 0, major: 52, access: if c == "p/I" { 0x0601 } else { 0x21 }, name: c.clone(), super_class: s.clone(), interfaces: i.clone(), fields: vec![], methods: vec![], attrs: vec![] })
+		.map(|(c, s, i)| CClass { minor: 0, major: 52, access: if c == "p/I" || c == "p/J" { 0x0601 } else { 0x21 }, name: c.clone(), super_class: s.clone(), interfaces: i.clone(), fields: vec![], methods: vec![], attrs: vec![] })
 		.collect();
 	let mut candidates = Vec::new();
 	let mut used: BTreeSet<(usize, String, String)> = BTreeSet::new();
